@@ -182,3 +182,9 @@ From RZ Require Import Model.Options Proofs.OptionsProofs.
 (* 0 switches heartbeating off, v > 0 is v ms, negatives and wrong lengths are refused under the option's id *)
 Theorem C19_heartbeat_option_semantics : forall (o : opts) (b : bytes), (match apply_opt o HEARTBEAT_IVL b with | inl o' => exists v, i32_of b = Some v /\ 0 <= v /\ heartbeat_ivl_of o' = ivl_decode v /\ (forall g, g <> F_heartbeat_ivl -> o' g = o g) | inr e => e = EVal HEARTBEAT_IVL /\ (i32_of b = None \/ exists v, i32_of b = Some v /\ v < 0) end)%Z /\ (match apply_opt o HEARTBEAT_TIMEOUT b with | inl o' => exists v, i32_of b = Some v /\ 0 <= v /\ heartbeat_timeout_of o' = ivl_decode v /\ (forall g, g <> F_heartbeat_timeout -> o' g = o g) | inr e => e = EVal HEARTBEAT_TIMEOUT /\ (i32_of b = None \/ exists v, i32_of b = Some v /\ v < 0) end)%Z.
 Proof. exact heartbeat_semantics. Qed.
+(* composed with the engine (whose configuration copies the option, Model/EngineCfg.v; engine time is nanoseconds) *)
+From RZ Require Import Model.EngineCfg Proofs.OptionsEngine.
+Theorem C19_heartbeat_option_ping_not_early : forall (o : opts) (d : Z) cfg g now x, (0 < d <= 2147483647)%Z -> exists o', apply_opt o HEARTBEAT_IVL (i32_bytes d) = inl o' /\ (c_hb_ivl cfg = ms_to_ns (cfg_heartbeat_ivl o') -> In x (snd (e_tick cfg g now)) -> (exists b z, x = OSend b z) -> h_waiting (g_hb g) = false /\ Z.to_N d * 1000000 <= now - h_last_activity (g_hb g)).
+Proof. exact heartbeat_option_ping_not_early. Qed.
+Theorem C19_heartbeat_option_zero_never_pings : forall (o : opts) cfg g now x, exists o', apply_opt o HEARTBEAT_IVL (i32_bytes 0) = inl o' /\ (c_hb_ivl cfg = ms_to_ns (cfg_heartbeat_ivl o') -> In x (snd (e_tick cfg g now)) -> ~ exists b z, x = OSend b z).
+Proof. exact heartbeat_option_zero_never_pings. Qed.
